@@ -4,6 +4,8 @@
 (* obs kinds:                                                                  *)
 (*   ids    : ids    = ascending docnums some access path returned            *)
 (*   count  : n      = len(results) / count reported by an access path        *)
+(*   flag   : value  = a boolean fact about the code that must hold            *)
+(*   atleast: n      = a reported upper bound on the number of matches         *)
 (*   ranked : k, hits = [[docnum, score]..] of search(limit=k) (k=0: None)    *)
 (*            cmp = "full": documents, scores and order must be the spec's     *)
 (*            cmp = "members": only which/how many documents (C01)             *)
@@ -22,11 +24,15 @@ Expected(m, q, o) ==
     [] o.kind = "ranked" -> [hits |-> Hits(m, TopK(m, o.k)), scored |-> Scored(q)]
     [] o.kind = "error" -> [noerror |-> TRUE]
     [] o.kind = "list" -> [list |-> Hits(m, Ids(m)), scored |-> Scored(q)]
+    [] o.kind = "flag" -> [value |-> TRUE]
+    [] o.kind = "atleast" -> [n |-> Cardinality(DOMAIN m)]
 
 ObsOK(m, q, o) ==
   CASE o.kind = "ids" -> o.ids = Ids(m)
     [] o.kind = "count" -> o.n = Cardinality(DOMAIN m)
     [] o.kind = "error" -> FALSE      \* a search of a well-formed query never raises
+    [] o.kind = "flag" -> o.value      \* a boolean fact observed on the code that must be true (e.g. idempotence)
+    [] o.kind = "atleast" -> o.n >= Cardinality(DOMAIN m)     \* estimate_size() is an upper bound
     [] o.kind = "list" ->             \* what stepping a top-level matcher delivered, in docnum order
          IF Scored(q) /\ o.cmp = "full" THEN o.list = Hits(m, Ids(m))
          ELSE [i \in DOMAIN o.list |-> o.list[i][1]] = Ids(m)
